@@ -22,6 +22,8 @@
 (***************************************************************************)
 EXTENDS Naturals, Sequences, FiniteSets, TLC
 
+CONSTANT BugFlag        \* "none" | name of a seeded model bug (sensitivity self-tests only)
+
 FlagCh  == {"#", "0", "-", " ", "+"}
 DigitCh == {"0", "1", "2", "3", "4", "5", "6", "7", "8", "9"}
 LenCh   == {"h", "l", "L"}
@@ -325,11 +327,15 @@ ImplAccept(kind, s, v) ==
     ELSE IF s.ch = "s" THEN << >>                                                                \* :186
     ELSE <<"pct-arg">>                                                                           \* :189
 
-\* get_serial_specifiers :339-349
+\* get_serial_specifiers :339-349: one star slot for a "*" width, another one for a "*" precision,
+\* then the specifier itself.  (BugFlag = "one-star-slot" is a seeded model bug used as sensitivity
+\* self-test of the specifier-structured slices: "*.*" collapsed into a single slot.)
 ImplSerial(P) ==
     Flat([j \in 1..Len(P.specs) |->
-            (IF P.specs[j].width = "star" THEN << [ch |-> "*"] >> ELSE << >>)
-         \o (IF P.specs[j].prec = "star" THEN << [ch |-> "*"] >> ELSE << >>)
+            (IF BugFlag = "one-star-slot"
+             THEN (IF P.specs[j].width = "star" \/ P.specs[j].prec = "star" THEN << [ch |-> "*"] >> ELSE << >>)
+             ELSE (IF P.specs[j].width = "star" THEN << [ch |-> "*"] >> ELSE << >>)
+                  \o (IF P.specs[j].prec = "star" THEN << [ch |-> "*"] >> ELSE << >>))
          \o (IF P.specs[j].ch # "%" THEN << P.specs[j] >> ELSE << >>)])
 
 \* accept_tuple_args_no_mvv :355-386
@@ -407,6 +413,17 @@ Dev_BytesKeyAsStr(c, k) ==
     /\ k = "none" /\ c.kind = "bytes" /\ c.args.shape = "dict" /\ RefRun(c).cause = "key"
     /\ \A j \in 1..Len(c.args.items) : c.args.keys[j].ty = "str"
 
+\* b'%(k)d' % {'k': 'x', b'k': 1}: the same decoding makes the checker validate the entry under the STR
+\* spelling of a mapping key, an entry CPython never reads (it formats the value under b'k'): a false
+\* report whenever that unread value does not fit the conversion
+Dev_BytesKeyWrongEntry(c, k) ==
+    /\ k \in {"num", "c-range", "c-single", "c-type", "bytes-only"}
+    /\ c.kind = "bytes" /\ c.args.shape = "dict"
+    /\ \E i \in 1..Len(RSpecs(c)), j \in 1..Len(c.args.items) :
+          /\ RSpecs(c)[i].haskey
+          /\ c.args.keys[j] = [ty |-> "str", chars |-> RSpecs(c)[i].key]
+          /\ RConvert(c.kind, RSpecs(c)[i].ch, c.args.items[j])[1] # "ok"
+
 \* '%((k))s' / '%()s': CPython keys may be empty or contain balanced parentheses
 KeyOdd(s) == s.haskey /\ (s.key = << >> \/ Has(s.key, "(") \/ Has(s.key, ")"))
 Dev_KeyGrammar(c, k) == SeqAny(RSpecs(c), KeyOdd) \/ (Has(c.t, "(") /\ RefRun(c).cause = "incomplete-key")
@@ -430,6 +447,7 @@ DevFalse(c, k) ==
     CASE Dev_CharAboveByte(c, k) -> "percent-c-above-255"
       [] Dev_EmptyPrecision(c, k) -> "percent-empty-precision"
       [] Dev_EscapeOnlyMapping(c, k) -> "percent-escape-only-mapping"
+      [] Dev_BytesKeyWrongEntry(c, k) -> "percent-bytes-key-wrong-entry"
       [] k = "invalid" /\ Dev_KeyGrammar(c, k) -> "percent-key-grammar"
       [] OTHER -> "no"
 
@@ -449,8 +467,7 @@ CONSTANTS
     PTokens,       \* set of character sequences appended one per step
     MaxTokens,
     ScalarVals, TupleVals, MaxTuple,
-    DictKeys, DictVals, MaxDict,
-    BugFlag        \* "none" | name of a seeded model bug (sensitivity self-test)
+    DictKeys, DictVals, MaxDict
 
 VARIABLES case, stage, ntok
 vars == <<case, stage, ntok>>
